@@ -147,8 +147,16 @@ def run_case(case):
 
     def fresh_name():
         # names of refused calls are recycled: a refusal must not leave the name reserved
-        if st["refused_names"] and rng.random() < 0.2:
-            return st["refused_names"].pop(rng.randrange(len(st["refused_names"])))
+        if st["refused_names"] and rng.random() < 0.3:
+            k_ = rng.randrange(len(st["refused_names"]))
+            nm = st["refused_names"][k_]
+            x_ = rng.random()
+            tup = (nm,) if isinstance(nm, str) else tuple(nm)
+            if x_ < 0.35:
+                return tup + (rng.choice(["x", 0]),)          # an extension of the refused name (it stays in the list)
+            if x_ < 0.5 and len(tup) > 1:
+                return tup[:-1]                                # a prefix of it
+            return st["refused_names"].pop(k_)
         st["fresh"] += 1
         return rng.choice([f"n{st['fresh']}", (f"n{st['fresh']}",), ("g", st["fresh"]), (f"n{st['fresh']}", "x")])
 
